@@ -39,6 +39,7 @@ MODES = [
     ("bdd::BDDEnv::fp", ["fp", "formula"]),
     ("bdd::BDDEnv::", ["ops", "quant", "count", "formula"]),
     ("symbols::", ["ops", "formula", "quant"]),
+    ("cli::main", ["clitable", "climodel", "cliorder", "cli"]),
     ("cli::", ["clitable", "cli"]),
 ]
 
@@ -89,13 +90,15 @@ def search(pid, fl, b, tier, seed, binary=None):
     else:
         env.pop("REPLAY_ASPECT", None)
     for mode in modes_for(fl.fid):
-        if mode in ("cli", "clitable"):
-            # the printers live in the binary crate: the failing input is a run of the real binary
+        if mode in ("cli", "clitable", "climodel", "cliorder"):
+            # the printers and main() live in the binary crate: the failing input is a run of the real binary
             from . import clisweep
             if mode == "clitable":
                 d, _, cerr = clisweep.sweep_table(REPO, int(budget), seed, aspect=aspect)
+            elif aspect == "panic" and mode != "cli":
+                continue
             else:
-                d, _, cerr = clisweep.sweep(REPO, int(budget), seed)
+                d, _, cerr = {"cli": clisweep.sweep, "climodel": clisweep.sweep_model, "cliorder": clisweep.sweep_order}[mode](REPO, int(budget), seed)
             if d is not None and d.get("case") is not None:
                 d["cmd"] = "the rsbdd binary built from /repo, run on this case (./check replay <file>)"
                 if aspect:
